@@ -432,7 +432,18 @@ func main() {
 				if msg != "" {
 					r.Violation(key("primary-unusable-after-failure"), id, fmt.Sprintf("after rotation %s with [%s]: %s", outcome, devs, msg), detail)
 				}
-				// A later fault-free rotation that may overwrite leftovers must succeed.
+				// A later fault-free rotation that may overwrite leftovers must succeed - also when the
+				// operator adds --keep_going to --overwrite (it is still allowed to overwrite). This variant
+				// runs on a copy, so that the plain --overwrite retry below starts from the same state.
+				if msg == "" {
+					wk := w.Clone()
+					if _, err := wk.Rotate(kmfx.RotateOpts{Now: tRot.Add(48 * time.Hour)}, kmfx.Flags{Overwrite: true, KeepGoing: true}, nil); err != nil {
+						r.Violation(key("retry-rotation(--overwrite --keep_going)-fails"), id, fmt.Sprintf("fault-free rotation with --overwrite --keep_going after [%s] fails: %v", devs, err), detail)
+					} else if m2 := invariant(wk, tNow); m2 != "" {
+						r.Violation(key("retry-rotation(--overwrite --keep_going)-breaks-invariant"), id, fmt.Sprintf("after the retry rotation with --overwrite --keep_going following [%s]: %s", devs, m2), detail)
+					}
+					wk.Drop()
+				}
 				retry := "skipped"
 				if msg == "" {
 					if _, err := w.Rotate(kmfx.RotateOpts{Now: tRot.Add(48 * time.Hour)}, kmfx.Flags{Overwrite: true}, nil); err != nil {
